@@ -43,10 +43,80 @@ def cases(tier, seed):
         for (ri, rho) in enumerate(RHOS):
             for (di, dt) in enumerate(DTS):
                 out.append({"vk": vk, "obj": obj, "rows": [list(r) for r in rows], "rho": rho, "dt": dt})
+    for pattern in ("boxed", "mixed"):
+        for k in ((0, 2) if tier == "quick" else range(5)):
+            for rho in RHOS:
+                for dt in DTS:
+                    out.append({"large": True, "n": 20 if tier == "quick" or k % 2 == 0 else 50, "pattern": pattern, "k": k, "rho": rho, "dt": dt})
     return out
 
 
+def large_case(case):
+    """Banded QP with 20 variables and 4 rows: every step solver with LU on a family of prescribed active sets (the implementations
+    switch algorithms with size, e.g. numpy's sort)."""
+    from pygradflow.iterate import Iterate
+    from pygradflow.step.solver import step_solver
+    from pygradflow.step.step_solver_error import StepSolverError
+    from pygradflow.transform import Transformation
+    from pgfmc.drive.problems import UserProblem
+    from pgfmc.drive.run import make_params
+
+    spec = S.banded_qp(case["n"], case["pattern"], case["k"])
+    rho, dt = case["rho"], case["dt"]
+    prob = UserProblem(spec)
+    F = O.Funcs(spec)
+    T = O.RefTrans(F)
+    viol, keys = [], []
+    stats = {"solves": 0, "compared": 0, "illcond": 0, "solver_failed": 0}
+    N = T.n
+    xb = np.clip(np.array([0.3 * (-1) ** i for i in range(N)]), T.var_lb, T.var_ub)
+    y = np.array([0.5 * (-1) ** i for i in range(T.m)])
+    R0 = O.RefPoint(T, xb, y)
+    p0 = O.implicit_p(T, (xb, y), R0, rho, dt)
+    sets = [O.implicit_active(T, p0), np.zeros(N, dtype=bool), np.array([i % 3 == 0 for i in range(N)]), np.array([i % 2 == 1 for i in range(N)]),
+            np.array([i >= N - 5 for i in range(N)]), np.array([i < 7 for i in range(N)])]
+    for ai, A in enumerate(sets):
+        Jm = O.implicit_jac(T, R0, rho, dt, A)
+        cond = np.linalg.cond(Jm)
+        if not np.isfinite(cond) or cond > 1e6:
+            stats["illcond"] += 1
+            continue
+        s = np.linalg.solve(Jm, O.implicit_value(T, (xb, y), R0, rho, dt, A))
+        xn = np.clip(xb - s[:N], T.var_lb, T.var_ub)
+        yn = y - s[N:]
+        scale = max(1.0, float(np.max(np.abs(s))))
+        keys.append(f"{spec['tag']}|{ai}|{rho}|{dt}")
+        for ss in ("Standard", "Extended", "Symmetric", "Asymmetric"):
+            params = make_params({"step_solver": ss})
+            tr = Transformation(prob, params)
+            P, ev = tr.trans_problem, tr.evaluator
+            it0 = Iterate(P, params, xb, y, ev)
+            stats["solves"] += 1
+            try:
+                with np.errstate(all="ignore"):
+                    sv = step_solver(P, params, it0, dt, rho)
+                    sv.update_active_set(A)
+                    sv.update_derivs(it0)
+                    res = sv.solve(it0)
+            except StepSolverError:
+                stats["solver_failed"] += 1
+                viol.append({"sig": f"C14|large|lu_failed|{ss}", "msg": f"LU failed on a well-conditioned system (cond {cond:.1e}) n={N}"})
+                continue
+            err = max(float(np.max(np.abs(res.iterate.x - xn))), float(np.max(np.abs(res.iterate.y - yn), initial=0.0)))
+            stats["compared"] += 1
+            if not np.isfinite(err) or err > 1e-10 * cond * scale:
+                viol.append({"sig": f"C14|large|step|{ss}", "msg": f"n={N}: step differs from the dense Newton step by {err:.3e} (cond {cond:.1e}), active set #{ai} "
+                                                                  f"with {int(A.sum())} active of {N}; rho={rho} dt={dt}"})
+    seen, vs = set(), []
+    for v in viol:
+        if v["sig"] not in seen:
+            seen.add(v["sig"]); vs.append(v)
+    return {"outcome": "agree" if not viol else "violating", "key": keys, "violations": vs, "stats": stats}
+
+
 def run_case(case):
+    if case.get("large"):
+        return large_case(case)
     from pygradflow.iterate import Iterate
     from pygradflow.newton import newton_method
     from pygradflow.step.solver import step_solver
@@ -153,22 +223,38 @@ def run_case(case):
                                     f"got x={gx.tolist()} y={gy.tolist()} want x={xn.tolist()} y={yn.tolist()}", at)
             # Newton variants: same first step; QP exactness
             R0 = O.RefPoint(T, xb, y)
-            firsts = {}
-            for newton in ("Simplified", "Full", "ActiveSet"):
-                params, P, ev = P_of("Standard", "LU", newton)
-                it0 = Iterate(P, params, xb, y, ev)
-                with np.errstate(all="ignore"):
-                    meth = newton_method(P, params, it0, dt, rho)
-                    st = meth.step(it0)
-                firsts[newton] = (st.iterate.x.copy(), st.iterate.y.copy(), meth, st, it0, P, params, ev)
-            stats["first_step"] += 1
-            fx, fy = firsts["Simplified"][:2]
-            sc = max(1.0, float(np.max(np.abs(fx))), float(np.max(np.abs(fy), initial=0)))
-            for newton in ("Full", "ActiveSet"):
-                gx, gy = firsts[newton][:2]
-                if not (np.allclose(gx, fx, rtol=0, atol=1e-12 * sc) and np.allclose(gy, fy, rtol=0, atol=1e-12 * sc)):
-                    bad(f"first_step|{newton}", f"first step differs from Simplified: {gx.tolist()},{gy.tolist()} vs {fx.tolist()},{fy.tolist()}",
-                        {"base": xb.tolist(), "y0": y.tolist(), "rho": rho, "dt": dt})
+            for tau in (None, 0.25 * dt, 4.0 * dt):
+                firsts = {}
+                for newton in ("Simplified", "Full", "ActiveSet"):
+                    params, P, ev = P_of("Standard", "LU", newton)
+                    it0 = Iterate(P, params, xb, y, ev)
+                    with np.errstate(all="ignore"):
+                        meth = newton_method(P, params, it0, dt, rho, tau)
+                        st = meth.step(it0)
+                    firsts[newton] = (st.iterate.x.copy(), st.iterate.y.copy(), meth, st, it0, P, params, ev)
+                stats["first_step"] += 1
+                fx, fy = firsts["Simplified"][:2]
+                sc = max(1.0, float(np.max(np.abs(fx))), float(np.max(np.abs(fy), initial=0)))
+                for newton in ("Full", "ActiveSet"):
+                    gx, gy = firsts[newton][:2]
+                    if not (np.allclose(gx, fx, rtol=0, atol=1e-12 * sc) and np.allclose(gy, fy, rtol=0, atol=1e-12 * sc)):
+                        bad(f"first_step|{newton}", f"first step (active-set parameter tau={tau}) differs from Simplified: {gx.tolist()},{gy.tolist()} vs {fx.tolist()},{fy.tolist()}",
+                            {"base": xb.tolist(), "y0": y.tolist(), "rho": rho, "dt": dt, "tau": tau})
+                # dense reference with the active set of the rule: p = x0 - tau * grad L (at the first step x = x0)
+                tt = dt if tau is None else tau
+                p_t = xb - tt * R0.dx(rho)
+                margin_t = np.minimum(np.abs(p_t - (T.var_lb - 1e-8)), np.abs(p_t - (T.var_ub + 1e-8)))
+                if (margin_t > 1e-9 * max(1.0, float(np.max(np.abs(p_t))))).all():
+                    A_t = O.implicit_active(T, p_t)
+                    Jt = O.implicit_jac(T, R0, rho, dt, A_t)
+                    ct = np.linalg.cond(Jt)
+                    if np.isfinite(ct) and ct < 1e6:
+                        s_t = np.linalg.solve(Jt, O.implicit_value(T, (xb, y), R0, rho, dt, A_t))
+                        xn_t = np.clip(xb - s_t[: T.n], T.var_lb, T.var_ub)
+                        err_t = max(float(np.max(np.abs(fx - xn_t))), float(np.max(np.abs(fy - (y - s_t[T.n:])), initial=0.0)))
+                        if err_t > 1e-10 * ct * max(1.0, float(np.max(np.abs(s_t)))):
+                            bad("first_step|reference", f"first Simplified step with tau={tau} differs from the dense step for the rule's active set {A_t.astype(int).tolist()} by {err_t:.3e}",
+                                {"base": xb.tolist(), "y0": y.tolist(), "rho": rho, "dt": dt, "tau": tau})
             # sequences of steps on ONE method object: iterates whose natural active sets alternate (A, B, A, C)
             near1 = np.clip(xb + 0.03125 * np.resize(np.array([1.0, -1.0, 0.5]), T.n), T.var_lb, T.var_ub)
             near2 = np.clip(xb - 0.0625 * np.resize(np.array([0.5, 1.0, -1.0]), T.n), T.var_lb, T.var_ub)
